@@ -99,9 +99,7 @@ int main(void) {
     VP_RUN(vp_thr_thief_b)
 #endif
   }
-#ifdef NOQ
-  int vp_deadlock = 0, vp_unfinished = !vp_thr_owner_fin || !vp_thr_thief_a_fin;
-#elif NTHIEF == 2
+#if NTHIEF == 2
   VP_QUIESCE3(vp_thr_owner, vp_thr_thief_a, vp_thr_thief_b)
 #else
   VP_QUIESCE2(vp_thr_owner, vp_thr_thief_a)
